@@ -57,7 +57,7 @@ def c_subrej(r):
 
 
 CORRUPT = {
-    "Config": c_config, "RP": c_rp, "RPS": add("n"), "DP": flip("same"), "VT": add("d2"), "PB": c_pb, "BP": c_pairs, "BD": add("d1"),
+    "Config": c_config, "RP": c_rp, "RPS": add("n"), "DP": flip("same"), "VT": add("d2"), "PB": c_pb, "BP": c_pairs, "BPR": add("n"), "BD": add("d1"),
     "BN": add("n"), "Sub": add("numViews"), "SubRejected": c_subrej, "SubOrg": add("oview"), "SubFrom": add("view"), "SubBP": add("n"),
     "SubCmp": flip("ge"), "SubMix": flip("le"), "Cmp": flip("ge"), "DPCmp": flip("lt"), "DPPCmp": flip("eq"), "BinCmp": flip("eq"),
     "Scanner": c_scanner, "ScCmp": flip("ne"),
@@ -94,7 +94,7 @@ def main():
                 elif kind == "Sub":
                     sub = r
                 lst = cands.setdefault(kind, [])
-                if len(lst) < PER_KIND and (kind != "RPS" or r["pairs"]) and (kind not in ("BP", "SubBP") or r["pairs"]):
+                if len(lst) < PER_KIND and (kind != "RPS" or r["pairs"]) and (kind not in ("BP", "BPR", "SubBP") or r["pairs"]):
                     # SubCmp / SubMix lines carry their views themselves: only the Config line governs them
                     ctx = [x for x in (cfg, None if kind in ("SubCmp", "SubMix") else sub) if x is not None and x is not r]
                     lst.append((ctx, r))
